@@ -33,6 +33,7 @@ FAMILY = {
     "UdtStrict": ("udt", "name", [("a", "a", "i32"), ("ignored", None, S), ("b", "b", S), ("c", "c", O64)], "sd"),
     "UdtOrdered": ("udt", "order", [("a", "a", "i32"), ("b", "bb", S)], "sd"),
     "UdtOrderedNoNames": ("udt", "order-nonames", [("a", "a", "i32"), ("b", "b", S)], "sd"),
+    "UdtOrderedDefaults": ("udt", "order", [("a", "a", "i32"), ("b", "b", "i64"), ("c", "c", "core::option::Option<i32>")], "sd"),
 }
 
 
@@ -281,6 +282,57 @@ def r3(ctx, facts):
                 r.instance("%s:%s:no-name-checks" % (name, tag), not seq, "skip_name_checks: no name may be compared; compares %s" % seq, b.span)
 
 
+def r4(ctx, facts):
+    r = ctx.rule("R4", "ordered UDT deserialization inspects a CQL field's value only after its name matched the Rust field", floor=5)
+    for name, (kind, flavor, fields, der) in FAMILY.items():
+        if kind != "udt" or flavor != "order" or "d" not in der:
+            continue
+        b = find_body(facts, r"^<derive_family::%s as scylla_cql_core::deserialize::value::DeserializeValue<'lifetime, 'lifetime_>>::deserialize$" % name)
+        df = df_of(b, facts)
+        lits = {}
+        for bb, c in b.calls():
+            if bb in b.live_blocks and c.decl == "core::cmp::PartialEq::eq" and len(c.args) == 2:
+                for a in c.args:
+                    lit = resolve_literal(facts, b, a)
+                    if lit is not None:
+                        lits[bb] = lit
+        names = {cql: ty for f, cql, ty in fields if cql is not None}
+        rpo = rpo_index(b)
+        flat_calls = sorted(b.calls_to("Option::<core::option::Option<T>>::flatten"), key=lambda c: rpo.get(c.bb, 1 << 30))
+        flat = {c.dest[0] for c in flat_calls}
+        order = [cql for f, cql, ty in fields if cql is not None]
+        field_of_value = {c.dest[0]: order[i] for i, c in enumerate(flat_calls)} if len(flat_calls) == len(order) else {}
+        if not flat or not lits or not field_of_value:
+            raise AnchorLost("%s::deserialize: per-field value (flatten) / name comparisons not found (%d/%d)" % (name, len(flat), len(lits)))
+        n = 0
+        for bb, c in b.calls():
+            if bb not in b.live_blocks:
+                continue
+            is_none = (c.name or "").endswith("Option::<T>::is_none")
+            is_deser = c.decl == "scylla_cql_core::deserialize::value::DeserializeValue::deserialize" and "UdtIterator" not in (callee_self_ty(b, c) or "")
+            if not (is_none or is_deser):
+                continue
+            locs = set()
+            for a in c.args:
+                locs |= backward_slice(b, a)[0]
+            if not (locs & flat):
+                continue
+            n += 1
+            # the most recent name comparison known to have succeeded (earlier fields' comparisons stay true)
+            hits = [k[1] for k, v in (df.state_in.get(bb) or {}).items() if k[0] == "call" and k[1] in lits and in_set(v, {1})]
+            latest = [h for h in hits if all(b.dominates(o, h) for o in hits)]
+            lit = lits[latest[0]] if len(latest) == 1 else None
+            what = "null test (default_when_null)" if is_none else "deserialization as %s" % callee_self_ty(b, c)
+            mine = {field_of_value[l] for l in locs & flat}
+            ok = lit is not None and mine == {lit}
+            what += " for Rust field %s" % sorted(mine)
+            if ok and is_deser:
+                ok = (callee_self_ty(b, c) or "").replace(" ", "") == names[lit].replace(" ", "")
+            r.instance("%s:value-used-after-name-check#%d" % (name, n), ok,
+                       "%s of the current CQL field happens where the name comparison in force is %r: the value must only be consumed (deserialized, or replaced by Default because it is null) for the Rust field whose name it carries" % (what, lit), c.span)
+        r.instance("%s:fields-covered" % name, n >= len(names), "%d value uses found for %d fields" % (n, len(names)), b.span, nontrivial=False)
+
+
 def check(ctx):
     facts = ctx.facts("family")
     sers = {}
@@ -288,7 +340,7 @@ def check(ctx):
         sers = r1(ctx, facts)
     except AnchorLost as ex:
         ctx.rule("R1x", "anchors").fail("anchor-lost", str(ex))
-    for fn in ((lambda c, f: r2(c, f, sers)), r3):
+    for fn in ((lambda c, f: r2(c, f, sers)), r3, r4):
         try:
             fn(ctx, facts)
         except AnchorLost as ex:
